@@ -53,10 +53,40 @@ def prune(base, keep=3):
         shutil.rmtree(d, ignore_errors=True)
 
 
+def stratum(line):
+    """Sampling stratum of a case: which perturbation kinds it carries, on which base route, under which controller prefix, with
+    which type set - so that a sample of an enumerated input set touches every kind of input before it repeats one."""
+    try:
+        cs = json.loads(json.loads(line)[5:])
+    except Exception:
+        return ""
+    key = [c_["prefix"] for c_ in cs.get("ctrls", [])]
+    for m in cs.get("methods", []):
+        kinds = sorted(set(piece.split(":")[0] for piece in (m.get("ptag") or "").split("+")))
+        key.append("%s|%s|%s|%s" % (",".join(kinds), m.get("desc", ""), len(m.get("sig", [])), ",".join(str(g) for g in m.get("groups", []))))
+    key.append(",".join(sorted(t["name"] + (":" + t["fields"][0]["type"] if t["name"] in ("Hostile", "Rules") and t.get("fields") else "") for t in cs.get("types", []))))
+    return json.dumps(key)
+
+
 def sample_cases(path, n, rng, out):
     lines = [l for l in open(path) if l.startswith('"CASE ')]
     if len(lines) > n:
-        lines = rng.sample(lines, n)
+        strata = collections.OrderedDict()
+        for l in lines:
+            strata.setdefault(stratum(l), []).append(l)
+        groups = list(strata.values())
+        rng.shuffle(groups)
+        for g_ in groups:
+            rng.shuffle(g_)
+        picked, i = [], 0
+        while len(picked) < n:
+            g_ = groups[i % len(groups)]
+            if g_:
+                picked.append(g_.pop())
+            i += 1
+            if i > n * len(groups) + len(lines):
+                break
+        lines = picked
     with open(out, "a") as f:
         f.writelines(lines)
     return len(lines)
@@ -168,9 +198,9 @@ def build_recording(tier):
     V0, A0 = ["--validate=false"], ["--alt=false"]
     plan = [("Pipeline_c04.cfg", None, 500 if thorough else 40, V0), ("Pipeline_c01sim.cfg", 1200 if thorough else 40, None, V0),
             ("Pipeline_sim.cfg", 2500 if thorough else 50, None, V0), ("Pipeline_c06single.cfg", None, 10 ** 6, V0), ("Pipeline_c06grp.cfg", None, 10 ** 6 if thorough else 16, V0), ("Pipeline_c06sim.cfg", 1500 if thorough else 30, None, V0),
-            ("Pipeline_c07sim.cfg", 1500 if thorough else 40, None, V0), ("Pipeline_c11rules.cfg", None, 10 ** 6, V0), ("Pipeline_c11rulesp.cfg", None, 10 ** 6, V0), ("Pipeline_c10.cfg", None, 1000 if thorough else 90, A0), ("Pipeline_c10mask.cfg", None, 700 if thorough else 60, A0),
+            ("Pipeline_c07sim.cfg", 1500 if thorough else 40, None, V0), ("Pipeline_c11rules.cfg", None, 10 ** 6, V0), ("Pipeline_c11rulesp.cfg", None, 10 ** 6, V0), ("Pipeline_c10.cfg", None, 1000 if thorough else 150, A0), ("Pipeline_c10mask.cfg", None, 700 if thorough else 90, A0),
             ("Pipeline_c13sim.cfg", 400 if thorough else 24, None, V0 + A0),
-            ("Pipeline_c14sim.cfg", 2000 if thorough else 60, None, V0)]
+            ("Pipeline_c14sim.cfg", 2000 if thorough else 60, None, V0), ("Pipeline_c14types.cfg", None, 10 ** 6, V0)]
     if thorough:
         plan.append(("Pipeline_c10sim.cfg", 1500, None, A0))
     import concurrent.futures
